@@ -36,7 +36,15 @@ func GenShare(r *rand.Rand) ShareScenario {
 		// while the only subscriber leaves and a new one joins and leaves (thread 1) - a reference or a flag of the old execution
 		// must not reach the new one
 		sc.Cfg.Rz = true
-		sc.Scripts = [][]string{{[]string{"complete", "error"}[r.Intn(2)]}, {"sub", "unsub", "sub", "unsub"}}
+		term := []string{"complete", "error"}[r.Intn(2)]
+		sc.Scripts = [][]string{{term}, {"sub", "unsub", "sub", "unsub"}}
+		if r.Intn(2) == 0 { // ... with a termination that is KEPT (no reset), the case in which the flags matter
+			if term == "complete" {
+				sc.Cfg.Rc = false
+			} else {
+				sc.Cfg.Re = false
+			}
+		}
 		if r.Intn(2) == 0 {
 			sc.Scripts[0] = append([]string{"next"}, sc.Scripts[0]...)
 		}
